@@ -9,6 +9,14 @@ ALL = ["C%02d" % i for i in range(1, 21)]
 
 # id -> dict(level, technique, text, note, design_ref, engine)
 CHECKS = {
+    "C20": dict(
+        level="model_checking",
+        engine="E4-sched",
+        technique="stateless preemption-bounded DFS over all thread schedules of the real auto-reloader code (mechanically source-swapped onto shuttle's scheduled Mutex), bound iterated 0..k",
+        text="The real minijinja-autoreload source is compiled into the harness with std::sync replaced by shuttle::sync by the build script, so every Mutex operation of the code under test is a scheduling point, however the source is edited. A depth-first explorer of my own (Scheduler implementation on shuttle's runtime) enumerates every schedule with at most k preemptions, k iterated from 0: quick = 30 configurations (1-2 requesters x 1-2 acquirers, one acquirer acquiring twice; rebuild and fast-reload mode; plain / request issued from inside the creator / freshness callback) with 3/2/1 preemptions for 2/3/4 threads, 5.1e5 complete schedules; thorough = the same at 3 preemptions plus 3 requesters/acquirers at 2 preemptions, 1e8+ schedules. Oracle on every execution: a requester bumps a version then calls request_reload() then publishes that it returned; every acquire_env() started after that must hand out an environment stamped (creator entry, or template load time in fast mode) with at least that version; the environment identity and stamp do not change while a guard is held; creator calls <= 1 + requests (+ creator-issued requests + freshness-callback trues), exactly 1 in fast mode; no deadlock (shuttle reports it). A failing schedule is replayed twice for determinism and written as a task-id list; divergence while replaying a prefix is a machinery error.",
+        note="shuttle treats every atomic as sequentially consistent and does not interleave Arc/Weak reference counting. The notify file-system watcher thread is real OS nondeterminism and is not driven; its callback uses the same flag protocol as request_reload. Creator failure is outside the quantifier.",
+        design_ref="2/C20",
+    ),
     "C05": dict(
         level="model_checking",
         engine="E2-bcmc",
